@@ -22,6 +22,7 @@ EXPLANATION = (
     "iteration, the clock is advanced before the job starts, the job runs inside 'except Exception' without "
     "re-raise, scheduled jobs are dispatched before events with the same bound, ScheduledJob orders by 'when' "
     "only. Decides these structural necessary conditions on every path; does not execute the dispatcher."
+    " C13.3 also: the scheduler pass returns only across the 'next job is not due' edge."
 )
 TRUSTED = ["CPython ast parser", "sa.cfg statement CFG (feasibility-insensitive)", "heapq semantics: h[0] is the minimum"]
 
